@@ -1115,6 +1115,25 @@ theorem legend_linear_f64_span_boundary :
       [-9007199254740992, -9007199254740991, -9007199254740989, -9007199254740988, -9007199254740986, -9007199254740985] := by
   decide +kernel
 
+/-- DEGENERATE OR REVERSED RANGE on the real float computation (`max ≤ min`: every cell holds the same value, or fixed ends the
+wrong way round): `remapMinMax` widens the range to `[min, min + 1]` and the legend is EXACTLY the two numbers `min`, `min + 1`,
+for every `min` with `-2^53 ≤ min < 2^53` (so `legend_linear_f64` and this theorem together cover every pair of ends in that
+class; here the value of `max` does not matter at all). -/
+theorem legend_linear_f64_degenerate (L2 L10 P2 P10 : F64 → F64) (mn mx : Int) (hle : mx ≤ mn)
+    (hmn : -9007199254740992 ≤ mn) (hmn' : mn < 9007199254740992) :
+    scaleKeys (f64Arith L2 L10 P2 P10) .linear 6 mn mx = [mn, mn + 1] :=
+  scaleKeys_linear_f64_deg L2 L10 P2 P10 mn mx hle hmn hmn'
+
+/-- the boundary of `legend_linear_f64_degenerate` (kernel-checked): at `min = 2^53` the widened end `2^53 + 1` is no float,
+`float64` rounds it back to `2^53`, the span is 0 and the legend is the single number `2^53`; one below, and at `-2^53`, there
+are two numbers; a reversed range `[5, -5]` shows `5 6`. -/
+theorem legend_linear_f64_degenerate_boundary :
+    scaleKeys (f64Arith id id id id) .linear 6 9007199254740992 9007199254740992 = [9007199254740992] ∧
+    scaleKeys (f64Arith id id id id) .linear 6 9007199254740991 7 = [9007199254740991, 9007199254740992] ∧
+    scaleKeys (f64Arith id id id id) .linear 6 (-9007199254740992) (-9007199254740992) = [-9007199254740992, -9007199254740991] ∧
+    scaleKeys (f64Arith id id id id) .linear 6 5 (-5) = [5, 6] := by
+  decide +kernel
+
 /-- the cell values of every reachable aggregated state are int64: `Cells.sample` (the aggregators' `+=`) wraps -/
 theorem sampled_cells_int64 (c : Cells) (hc : DomCells I64 c) (r k : Nat) (inc : Int) : DomCells I64 (c.sample r k inc) := by
   unfold Cells.sample
